@@ -40,6 +40,24 @@ def tykey(ty):
     return 'i64' if ty.tag == 'I64' else ident(ty.args[0])
 
 
+def value_fits(prog, b, v):
+    """does the run-time value v inhabit the declared kind / type of the binding b"""
+    k = tykey(b['ty'])
+    if k == 'i64':
+        return v[0] == 'int' if b['chi'].tag == 'Ext' else v[0] != 'int'
+    t = prog.types.get(k)
+    if t is None:
+        return True
+    names = {ident(x['name']) for x in t['xtors']}
+    if v[0] == 'int':
+        return False
+    if v[0] == 'obj':
+        return v[1] in names
+    if v[0] == 'clo':
+        return {ident(c["xtor"]) for c in v[1]} <= names
+    return True
+
+
 # ------------------------------------------------------------------ named
 
 def run_named(prog, args, ctx, entry=None):
@@ -131,6 +149,13 @@ def nstmt(prog, ctx, s, env):
         vals = [nlook(env, ident(b['var'])) for b in s['args']['bindings']]
         if len(bs) != len(vals):
             raise Stuck(f"call of {s['label']['name']} with {len(vals)} arguments, {len(bs)} expected")
+        # well-typedness of the call (the precondition of every later stage): the annotation of each argument and the
+        # value it holds agree with the callee's signature
+        for b, a, x in zip(bs, s['args']['bindings'], vals):
+            if chi_of(a) != chi_of(b) or tykey(a['ty']) != tykey(b['ty']):
+                raise Stuck(f"ill-typed call of {s['label']['name']}: argument {a['var']['name']} is annotated differently from parameter {b['var']['name']}")
+            if not value_fits(prog, b, x):
+                raise Stuck(f"ill-typed call of {s['label']['name']}: the value of {a['var']['name']} is not of the type of parameter {b['var']['name']}")
         env2 = {ident(b['var']): x for b, x in zip(bs, vals)}     # exactly the parameters, nothing else
         return Bounce(lambda: nstmt(prog, ctx, d['body'], env2))
     if tag == 'Substitute':
